@@ -1,0 +1,9 @@
+//go:build !verif
+
+package evaluator
+
+import "github.com/Syuparn/pangaea/object"
+
+func verifEnter() *object.PanErr { return nil }
+
+func verifLeave() {}
